@@ -7,5 +7,6 @@ namespace Drv
 def handlers : List (List SExp → Option SExp) :=
   [ leaf
   , exportCmd
+  , reprCmd
   ]
 end Drv
